@@ -156,6 +156,13 @@ inductive Flow where
   | ret
   deriving Inhabited
 
+/-- Rust block scoping: bindings made inside a nested block do not escape it. -/
+def endScope {σ : Type} (l : Locals) (r : R σ Flow) : R σ Flow :=
+  match r with
+  | .error e => .error e
+  | .ok (.ret, s) => .ok (.ret, s)
+  | .ok (.cont _, s) => .ok (.cont l, s)
+
 def setNth (l : List Nat) (i : Nat) (v : Nat) : List Nat :=
   match l, i with
   | [], _ => []
@@ -188,15 +195,15 @@ def execStmt (ops : TokOps σ) : Nat → S → Locals → σ → R σ Flow
         match findArm arms t with
         | none => .error ⟨.crash "non-exhaustive match", ops.loc s⟩
         | some (b, bound) =>
-          let l := match bound with | some n => { l with name := some n } | none => l
-          execBlock ops f b l s
+          let l' := match bound with | some n => { l with name := some n } | none => l
+          endScope l (execBlock ops f b l' s)
     | .matchName arms dflt =>
       match l.name with
       | none => crash "match name: unbound"
       | some n =>
         match arms.find? (·.1 == n) with
-        | some (_, b) => execBlock ops f b l s
-        | none => execBlock ops f dflt l s
+        | some (_, b) => endScope l (execBlock ops f b l s)
+        | none => endScope l (execBlock ops f dflt l s)
     | .push e =>
       let c := ops.getC s
       match evalV l c.dataLen e with
@@ -245,8 +252,8 @@ def execStmt (ops : TokOps σ) : Nat → S → Locals → σ → R σ Flow
       | some (loc, nodes) =>
         match evalOpt (ops.getC s) nodes loc with
         | .error er => .error er
-        | .ok (some v) => execBlock ops f t (l.setInt "value" v.toInt) s
-        | .ok none => execBlock ops f e l s
+        | .ok (some v) => endScope l (execBlock ops f t (l.setInt "value" v.toInt) s)
+        | .ok none => endScope l (execBlock ops f e l s)
     | .letIfSolved x t tv e ev =>
       match l.expr with
       | none => crash "letIfSolved: no expr"
@@ -260,7 +267,7 @@ def execStmt (ops : TokOps σ) : Nat → S → Locals → σ → R σ Flow
           | .ok (.cont l', s) =>
             match evalV l' (ops.getC s).dataLen tv with
             | none => crash "letIfSolved: tail"
-            | some r => .ok (.cont (l'.setInt x r), s)
+            | some r => .ok (.cont (l.setInt x r), s)
         | .ok none =>
           match execBlock ops f e l s with
           | .error er => .error er
@@ -268,17 +275,18 @@ def execStmt (ops : TokOps σ) : Nat → S → Locals → σ → R σ Flow
           | .ok (.cont l', s) =>
             match evalV l' (ops.getC s).dataLen ev with
             | none => crash "letIfSolved: tail"
-            | some r => .ok (.cont (l'.setInt x r), s)
+            | some r => .ok (.cont (l.setInt x r), s)
     | .constExpr t e =>
       match constExpr ops f s with
       | .error er => .error er
-      | .ok ((loc, some v), s) => execBlock ops f t ({ l with expr := some (loc, []) }.setInt "value" v.toInt) s
-      | .ok ((loc, none), s) => execBlock ops f e { l with expr := some (loc, []) } s
+      | .ok ((loc, some v), s) =>
+        endScope l (execBlock ops f t ({ l with expr := some (loc, []) }.setInt "value" v.toInt) s)
+      | .ok ((loc, none), s) => endScope l (execBlock ops f e { l with expr := some (loc, []) } s)
     | .ite c t e =>
       match evalC l (ops.getC s).dataLen c with
       | none => crash "ite: condition"
-      | some true => execBlock ops f t l s
-      | some false => execBlock ops f e l s
+      | some true => endScope l (execBlock ops f t l s)
+      | some false => endScope l (execBlock ops f e l s)
     | .letV x e =>
       match evalV l (ops.getC s).dataLen e with
       | none => crash "letV: value"
@@ -289,7 +297,7 @@ def execStmt (ops : TokOps σ) : Nat → S → Locals → σ → R σ Flow
       | some v =>
         match arms.find? (·.1 == v) with
         | some (_, r) => .ok (.cont (l.setInt x r), s)
-        | none => execBlock ops f dflt l s
+        | none => endScope l (execBlock ops f dflt l s)
     | .letPeek x p =>
       match ops.peek s with
       | .error e => .error e
@@ -297,8 +305,8 @@ def execStmt (ops : TokOps σ) : Nat → S → Locals → σ → R σ Flow
     | .itePeekSym name t e =>
       match peekedSymbol ops name s with
       | .error er => .error er
-      | .ok (true, s) => execBlock ops f t l s
-      | .ok (false, s) => execBlock ops f e l s
+      | .ok (true, s) => endScope l (execBlock ops f t l s)
+      | .ok (false, s) => endScope l (execBlock ops f e l s)
     | .letPeekSym x name t e tv ev =>
       match peekedSymbol ops name s with
       | .error er => .error er
@@ -306,12 +314,12 @@ def execStmt (ops : TokOps σ) : Nat → S → Locals → σ → R σ Flow
         match execBlock ops f t l s with
         | .error er => .error er
         | .ok (.ret, s) => .ok (.ret, s)
-        | .ok (.cont l', s) => .ok (.cont (l'.setBool x tv), s)
+        | .ok (.cont _, s) => .ok (.cont (l.setBool x tv), s)
       | .ok (false, s) =>
         match execBlock ops f e l s with
         | .error er => .error er
         | .ok (.ret, s) => .ok (.ret, s)
-        | .ok (.cont l', s) => .ok (.cont (l'.setBool x ev), s)
+        | .ok (.cont _, s) => .ok (.cont (l.setBool x ev), s)
     | .link kind off =>
       match l.expr, linkKindOf kind with
       | some (loc, nodes), some (k, len) =>
